@@ -7,7 +7,7 @@ use crate::stream::{ReadStream, WriteStream};
 
 /// Delay stream. Good for syncing up streams.
 #[derive(rustradio_macros::Block)]
-#[rustradio(crate)]
+#[rustradio(crate, noeof)]
 pub struct Delay<T: Copy> {
     delay: usize,
     current_delay: usize,
@@ -47,6 +47,14 @@ impl<T: Copy> Delay<T> {
     }
 }
 
+impl<T: Copy> crate::block::BlockEOF for Delay<T> {
+    fn eof(&mut self) -> bool {
+        // The zeros of the delay are part of the output: the block is not
+        // done while it still owes some (unless nobody reads them).
+        self.src.eof() && (self.current_delay == 0 || crate::stream::StreamWait::closed(&self.dst))
+    }
+}
+
 impl<T> Block for Delay<T>
 where
     T: Copy + Default,
@@ -73,6 +81,11 @@ where
             let a = input.len();
             let n = std::cmp::min(a, self.skip);
             if n == 0 && a == 0 {
+                if self.current_delay > 0 {
+                    // The output filled up before all the zeros were out:
+                    // that is what this block is waiting for.
+                    return Ok(BlockRet::WaitForStream(&self.dst, 1));
+                }
                 return Ok(BlockRet::WaitForStream(&self.src, 1));
             }
             input.consume(n);
